@@ -1,10 +1,11 @@
 -------------------------------- MODULE MC_Cli --------------------------------
 (* Stage (A) for C20: the obligation matrix is total / single-valued / not vacuous (ASSUMEs, evaluated over *)
 (* every sub-command x input class x library verdict), and on the session model                            *)
-(*   MC_Cli          intended tool: every run is Truthful; create;extract is the identity on tokens;       *)
+(*   MC_Cli          the tool as coded: every run is Truthful; create;extract is the identity on tokens;   *)
 (*                   exit 0 of extract means every requested readable file is there                        *)
-(*   MC_Cli_ascoded  with `mpq validate` as written: the only untruthful runs are validate runs that       *)
-(*                   printed a failure and exited 0 (F-C20-a), everything else still holds                 *)
+(*   MC_Cli_deviant  with the deviation ValidateDeviant (validate before commit 01748b8) enabled: the only *)
+(*                   untruthful runs are validate runs that printed a failure and exited 0                 *)
+(*   MC_Cli_refuted  the same model against LastTruthful: TLC must find the violation                      *)
 EXTENDS Cli
 ASSUME MatrixTotal
 ASSUME MatrixNotVacuous
@@ -14,5 +15,4 @@ ASSUME PrintT(<<"MATRIX", Cardinality(AllCmds), "sub-commands", Cardinality(Inpu
                     FailureClass([Run0(fc[1], fc[2], inp) EXCEPT !.lib = lib])}), "must-fail cells">>)
 OnlyKnownDefect == (HasRun /\ ~Truthful(vlast.r, vlast.o)) =>
                    (vlast.r.fam = "mpq" /\ vlast.r.cmd = "validate" /\ vlast.o.says_fail /\ vlast.o.exit = 0)
-DefectReachable == ~(HasRun /\ ~Truthful(vlast.r, vlast.o))   \* expected to be violated in the as-coded model
 =============================================================================
